@@ -128,8 +128,8 @@ def run(check, an: Analysis):
                     'store of the current activity into _owner dominated by '
                     '`_owner is None` (fact=%s, value is current activity=%s)'
                     % (free, value_ok), path=rules.path_lines(path, index))
-    if n_take == 0:
-        raise AnalysisError('Lock.__aenter__ never takes ownership')
+    check.instance('X', 'take:present', n_take > 0, where_fn(fn_enter),
+                   '__aenter__ records the caller as owner of a free lock')
     # __release__: next waiter or None
     for path in an.paths(release):
         for index, event in enumerate(path.events):
@@ -198,8 +198,8 @@ def run(check, an: Analysis):
                     designation, released)
             check.instance('P', '%s/%s' % (construct, designation), ok, event.where, what,
                            path=rules.path_lines(path, index))
-    if n_wait < len(SIGNALS):
-        raise AnalysisError('Lock.__aenter__: wait not found for every signal class')
+    check.instance('P', 'wait:present', n_wait >= len(SIGNALS), where_fn(fn_enter),
+                   'a contended lock is waited for (%d signal exits of the wait)' % n_wait)
     # normal wake-up: no release, no ownership store (hand-over is by __release__)
     for path in enter_paths:
         if path.normal and any(e.kind == 'susp' and e.depth == 0 and e['exit'] == 'normal'
